@@ -27,6 +27,7 @@ type scenario struct {
 	Kind    string `json:"kind"` // bridge | dpipe
 	Ops     []op   `json:"ops"`
 	BufLens [2]int `json:"bufLens"` // bridge: read slice length per endpoint
+	Lazy    bool   `json:"lazy"`    // bridge: no reader waits in the background; "tick" finds no reader, "read" reads on demand
 }
 
 func gen(r *harn.Rng, tier string) interface{} {
@@ -80,6 +81,12 @@ func gen(r *harn.Rng, tier string) interface{} {
 				k := r.Pick(0, 1, 1, 2, 2, 3, 4)
 				sc.Ops = append(sc.Ops, op{K: "reordernext", Dir: d, N: k})
 				pendReo[d] = k
+			} else if pendReo[d] > 0 && r.Bool(0.5) {
+				// re-arm while a batch is partly collected: the held messages stay held and
+				// leave together with the new batch
+				k := r.Pick(1, 2, 3)
+				sc.Ops = append(sc.Ops, op{K: "reordernext", Dir: d, N: k})
+				pendReo[d] = k
 			}
 		case x < 80:
 			sc.Ops = append(sc.Ops, op{K: "drop", Dir: d, Off: r.Range(0, 3), N: r.Range(0, 4)})
@@ -90,6 +97,16 @@ func gen(r *harn.Rng, tier string) interface{} {
 		default:
 			sc.Ops = append(sc.Ops, op{K: "process"})
 			qlen = [2]int{}
+		}
+	}
+	if r.Bool(0.3) {
+		// lazy mode: nobody waits in Read while the script runs; "tick" must then hand nothing
+		// over, and "process" becomes "read everything that is queued"
+		sc.Lazy = true
+		for i := range sc.Ops {
+			if sc.Ops[i].K == "w" && r.Bool(0.25) {
+				sc.Ops = append(sc.Ops[:i+1], append([]op{{K: "tick"}}, sc.Ops[i+1:]...)...)
+			}
 		}
 	}
 	return sc
@@ -145,13 +162,14 @@ func (m *dirModel) write(b []byte) {
 func runBridge(env *simrt.Env, sc *scenario) {
 	br := bridge.NewBridge()
 	conns := [2]net.Conn{br.GetConn0(), br.GetConn1()}
+	var readers [2]*simrt.Handle
 	var models [2]dirModel // models[d]: messages written at endpoint d, read at endpoint 1-d
 	var expect [2][][]byte // expect[e]: messages endpoint e must read, in order
 	var got [2][][]byte
 	var readErr [2]error
 	nextID := uint32(1)
 
-	var readers [2]*simrt.Handle
+	startReaders := func() {
 	for e := 0; e < 2; e++ {
 		e := e
 		readers[e] = env.Go(fmt.Sprintf("reader%d", e), func() {
@@ -166,7 +184,14 @@ func runBridge(env *simrt.Env, sc *scenario) {
 			}
 		})
 	}
+	}
+	if !sc.Lazy {
+		startReaders()
+	}
 	flush := func() bool {
+		if sc.Lazy && readers[0] == nil {
+			startReaders() // from the first flush on, readers wait in Read
+		}
 		for d := 0; d < 2; d++ {
 			expect[1-d] = append(expect[1-d], models[d].queue...)
 			models[d].queue = nil
@@ -235,7 +260,19 @@ func runBridge(env *simrt.Env, sc *scenario) {
 		case "filter":
 			br.Filter(d, pred(o.N))
 			models[d].filter = pred(o.N)
+		case "tick":
+			// no reader is waiting (lazy mode before the first flush): nothing may leave the queues
+			if sc.Lazy && readers[0] == nil {
+				if n := br.Tick(); n != 0 {
+					env.Fail("C18/bridge-tick-without-reader", "op %d: Tick handed over %d message(s) although no reader was waiting", i, n)
+					return
+				}
+				env.Probe("tick-without-reader")
+			}
 		case "process":
+			if sc.Lazy && readers[0] == nil {
+				continue // keep the queues untouched until the end of the script
+			}
 			flush()
 		}
 	}
